@@ -449,6 +449,39 @@ fn non_http_locations(ctx: &Ctx) -> u64 {
     n
 }
 
+/// The same with proxies configured for http and https: a Location whose scheme is neither is not
+/// followed through a proxy either (exactly one request, the exchange fails).
+fn non_http_locations_via_proxy(ctx: &Ctx) -> u64 {
+    let mut n = 0;
+    for loc in ["ftp://files.test/pub/x", "ws://h.test/chat", "wss://h.test/chat", "foo://h.test:81/x", "gopher://g.test:70/1", "HTTPX://h.test/"] {
+        for status in [301u16, 302, 303, 307, 308] {
+            for both in [false, true] {
+                n += 1;
+                let resp = Resp { status, location: Some(loc.to_string()), body: 0 };
+                let ok200 = Resp { status: 200, location: None, body: 0 };
+                let (hops, fin) = run_chain(&[resp, ok200], || {
+                    let p = url::Url::parse("http://proxy.test:3128").unwrap();
+                    let mut b = attohttpc::ProxySettings::builder().http_proxy(p.clone());
+                    if both {
+                        b = b.https_proxy(p);
+                    }
+                    attohttpc::get("http://a.test/start").proxy_settings(b.build()).send()
+                });
+                ctx.outcome(format!("non-http-location-via-proxy:{}", if matches!(fin, Final::Err(_)) { "refused" } else { "followed" }));
+                if !matches!(fin, Final::Err(_)) || hops.len() != 1 {
+                    ctx.violation(
+                        "C09:non-http-location-followed",
+                        format!("{status} with Location {loc}, an http proxy configured{}: {} request(s) sent, outcome {fin:?}", if both { " (also for https)" } else { "" }, hops.len()),
+                        json!({"engine": "c09", "non_http": true}),
+                        1000 + n,
+                    );
+                }
+            }
+        }
+    }
+    n
+}
+
 /// A prepared request sent twice: every send() starts from the prepared URL with a fresh redirect
 /// count; the second exchange is the first one over again.
 fn prepared_twice(ctx: &Ctx) -> u64 {
@@ -545,6 +578,8 @@ pub fn c09(ctx: &Ctx) -> Report {
     }
     let n_non_http = non_http_locations(ctx);
     ctx.count("non_http_location_cases", n_non_http);
+    let n_non_http_proxy = non_http_locations_via_proxy(ctx);
+    ctx.count("non_http_location_via_proxy_cases", n_non_http_proxy);
     let n_extreme = extreme_bounds(ctx);
     ex += n_extreme;
     let n_twice = prepared_twice(ctx);
